@@ -1,5 +1,8 @@
 // simcore: fibers, seeded scheduler, event log, per-rank library globals, allocation seam.
 #include "sim.hpp"
+#ifndef _GNU_SOURCE
+#define _GNU_SOURCE
+#endif
 #include <ucontext.h>
 #include <sys/mman.h>
 #include <elf.h>
@@ -67,7 +70,7 @@ static const size_t STACK_SZ = 1 << 20;
 struct Fiber {
     ucontext_t ctx;
     char *stack = nullptr;
-    bool done = false, started = false, blocked = false;
+    bool done = false, started = false, blocked = false, started_once = false;
     std::function<bool()> pred;
     const char *what = "";
     std::string desc;
@@ -244,7 +247,39 @@ std::string symbolize(void *addr) {
     if (a >= it->addr + std::max<size_t>(it->size, 1) + 16) return "?";
     return it->name;
 }
+static bool sim_helper_name(const std::string &nm) {
+    static const char *h[] = {"do_reduce", "do_gather", "do_split", "do_io", "post_send", "req_progress", "fcoll_enter", "fcoll_wait", "coll_enter", nullptr};
+    for (int i = 0; h[i]; i++) if (nm == h[i]) return true;
+    return false;
+}
+__attribute__((no_sanitize("address"))) static std::string walk_frames(int rank, uintptr_t *fp) {
+    std::string out; int n = 0;
+    uintptr_t lo = (uintptr_t)fibers[rank].stack, hi = lo + STACK_SZ;
+    std::string last;
+    for (int depth = 0; depth < 64; depth++) {
+        if ((uintptr_t)fp < lo || (uintptr_t)fp + 16 > hi) break;
+        uintptr_t ret = fp[1];
+        uintptr_t *nfp = (uintptr_t *)fp[0];
+        if (ret) {
+            std::string nm = symbolize((void *)(ret - 1));
+            bool simf = nm.compare(0, 4, "MPI_") == 0 || nm.compare(0, 2, "_Z") == 0 || nm.compare(0, 5, "pncv_") == 0 || nm == "?" || sim_helper_name(nm);
+            if (!simf && nm != last) { if (n) out += "<"; out += nm; last = nm; if (++n >= 5) break; }
+            if (nm.compare(0, 6, "ncmpi_") == 0) break;
+        }
+        if (nfp <= fp) break;
+        fp = nfp;
+    }
+    return out;
+}
+std::string fiber_site(int rank) {   // call chain of a suspended fiber (hang reports)
+    if (rank < 0 || rank >= (int)fibers.size() || !fibers[rank].started_once) return "";
+    return walk_frames(rank, (uintptr_t *)fibers[rank].ctx.uc_mcontext.gregs[REG_RBP]);
+}
 __attribute__((no_sanitize("address"))) std::string lib_site(int) {
+    if (current < 0) return "";
+    return walk_frames(current, (uintptr_t *)__builtin_frame_address(0));
+}
+__attribute__((no_sanitize("address"))) std::string lib_site_old(int) {
     // walk frame pointers within the current fiber stack
     std::string out; int n = 0;
     if (current < 0) return out;
@@ -283,7 +318,7 @@ void run(Sim &s, const RankMain &fn) {
     abort_run = false;
     for (int i = 0; i < n; i++) {
         Fiber &f = fibers[i];
-        f.done = false; f.started = false; f.blocked = false; f.pred = nullptr; f.what = "start"; f.desc.clear();
+        f.done = false; f.started = false; f.started_once = false; f.blocked = false; f.pred = nullptr; f.what = "start"; f.desc.clear();
         f.globals = g_pristine; f.cur_op = -1; f.in_lib = false; f.res = RankRes();
 #ifdef SIM_ASAN
         __asan_unpoison_memory_region(f.stack, STACK_SZ);
@@ -311,7 +346,7 @@ void run(Sim &s, const RankMain &fn) {
             std::string d;
             for (int i = 0; i < n; i++) {
                 Fiber &f = fibers[i];
-                d += "rank" + std::to_string(i) + ":" + (f.done ? "done" : std::string(f.what) + "{" + f.desc + "}") + " ";
+                d += "rank" + std::to_string(i) + ":" + (f.done ? "done" : std::string(f.what) + "{" + f.desc + "}[" + fiber_site(i) + "]") + " ";
             }
             current = -1;
             soft_violation("hang", d);
@@ -349,7 +384,7 @@ void run(Sim &s, const RankMain &fn) {
         if (s.st.steps > s.cfg.max_steps) { current = -1; soft_violation("livelock", "scheduler step budget exceeded"); break; }
         // switch in
         current = pick; last = pick;
-        Fiber &f = fibers[pick];
+        Fiber &f = fibers[pick]; f.started_once = true;
         copy_in(f.globals.data());
 #ifdef SIM_ASAN
         __sanitizer_start_switch_fiber(&main_fake, f.stack, STACK_SZ);
